@@ -13,8 +13,10 @@ PROOFS = {
     'C09': ['Typename.to_cpp', 'Typename.__repr__', 'Typename.qualified_name', 'Type.to_cpp', 'TemplatedType.to_cpp',
             'PybindWrapper._py_args_names', 'PybindWrapper._method_args_signature', 'PybindWrapper._add_namespaces',
             'PybindWrapper.wrap_variable'],
-    'C08': ['Typename.instantiated_name', 'InstantiatedMethod.to_cpp', 'InstantiatedStaticMethod.to_cpp',
-            'InstantiatedGlobalFunction.to_cpp'],
+    'C08': ['Typename.instantiated_name', 'instantiate_name', 'InstantiatedMethod.to_cpp', 'InstantiatedStaticMethod.to_cpp',
+            'InstantiatedGlobalFunction.to_cpp', 'InstantiatedConstructor.to_cpp', 'Typename.__init__', 'Class.namespaces',
+            'ForwardDeclaration.namespaces', 'InstantiatedClass.cpp_typename', 'InstantiatedClass.to_cpp',
+            'InstantiatedDeclaration.to_cpp'],
     'C02': [],
     'C13': [],
     'C15': [],
